@@ -186,7 +186,7 @@ func (fr *Frame) inlineCallQ(fn *ssa.Function, args []Val, bindings []Val, st *S
 	res, out := sub.run(st)
 	// exceptional exits of the callee propagate to the caller
 	for _, p := range sub.panics {
-		fr.raise(p.st, p.val, pos, "panic in "+relFuncName(fn))
+		fr.raise(p.st, p.val, pos, p.why+" (via "+relFuncName(fn)+")")
 	}
 	if out == nil {
 		return Val{}, nil, sub
@@ -614,6 +614,11 @@ func (vc *VC) specFactsOf(f *ssa.Function) *specFacts {
 					}
 					on := originName(c)
 					if vc.L.IsSpecFunc(c) {
+						if on == "ghostHas" {
+							if nm, ok := constString(x.Common().Args[0]); ok {
+								sf.direct["$g."+nm] = Sort("(Array Ptr (Array String Bool))")
+							}
+						}
 						if on == "ghostInt" || on == "ghostIface" {
 							if nm, ok := constString(x.Common().Args[0]); ok {
 								if on == "ghostInt" {
@@ -956,6 +961,13 @@ func (fr *Frame) intrinsic(fn *ssa.Function, args []Val, st *State, pos token.Po
 		return TV(vc.ghost(st, "$trace", STrace)), true
 	case "traceCall":
 		return TV(App(STrace, "tsnoc", args[0].T, args[1].T, asPtr(args[2]), asPtr(args[3]), asPtr(args[4]))), true
+	case "ghostHas":
+		nm, ok := constString(site.Common().Args[0])
+		if !ok {
+			fail("%s: ghost field name must be a constant string", vc.posOf(pos))
+		}
+		g := vc.ghost(st, "$g."+nm, Sort("(Array Ptr (Array String Bool))"))
+		return TV(Sel(Sel(g, asPtr(args[1]), Sort("(Array String Bool)")), args[2].T, SBool)), true
 	case "ghostIntAtEntry":
 		nm, ok := constString(site.Common().Args[0])
 		if !ok {
@@ -1441,6 +1453,7 @@ func (fr *Frame) havocItems(st *State, items []modItem, pos token.Pos) {
 }
 
 var ifaceGhosts = map[string]bool{}
+var setGhosts = map[string]bool{}
 
 func ghostSort(name string) Sort {
 	switch name {
@@ -1451,7 +1464,7 @@ func ghostSort(name string) Sort {
 		if ifaceGhosts[name[3:]] {
 			return Sort("(Array Ptr Iface)")
 		}
-		if name == "$g.muxpat" {
+		if setGhosts[name[3:]] {
 			return Sort("(Array Ptr (Array String Bool))")
 		}
 		return Sort("(Array Ptr Int)")
